@@ -4,7 +4,8 @@
     stated for an arbitrary hash function [sha], an arbitrary public-suffix
     function [pubsuf], an arbitrary TXT suffix and cache time. *)
 From Coq Require Import ZArith List.
-From AGH Require Import Base.Run Base.Bytes Model.HashPrefix Proofs.HashPrefix.
+From AGH Require Import Base.Run Base.Bytes Model.HashPrefix Proofs.HashPrefix Proofs.HashPrefixMatch
+  Model.HashPrefixBytes Proofs.HashPrefixBytes.
 Import ListNotations.
 
 (** The question is the hex of the 2-byte prefixes, each followed by a dot,
@@ -176,3 +177,108 @@ Print Assumptions C19_only_prefixes_caller.
 Example C19_caller_premises_satisfiable :
   caller_name [87; 87; 87; 46; 69; 118; 105; 108; 46; 67; 79; 77]%N = [119; 119; 119; 46; 101; 118; 105; 108; 46; 99; 111; 109]%N.
 Proof. exact caller_example. Qed.
+
+(** ** Blocked needs a full hash (round 3) *)
+
+(** For every cache content (no invariant assumed), every service, map order
+    and eviction behaviour: a check answers "blocked" only if one of the full
+    hashes it had, an unexpired cache entry's or a well-formed string's of the
+    answer to its question, is equal in all 32 bytes to the hash of an
+    enumerated name. *)
+Theorem C19_verdict_needs_full_hash : forall sha pubsuf suffix cache_time svc order evs now host c,
+  o_blocked (snd (check sha pubsuf suffix cache_time svc order evs now host c)) = true ->
+  exists h, In h (hostname_to_hashes sha pubsuf host) /\
+            full_hash_source sha pubsuf svc now host c h.
+Proof. exact verdict_needs_full_hash. Qed.
+Print Assumptions C19_verdict_needs_full_hash.
+
+(** With the exact cache and a service for [db]: if no hash of the database is
+    the hash of an enumerated name, nothing is blocked, fresh or cached,
+    whatever prefixes or remaining bytes are shared. *)
+Theorem C19_no_full_hash_never_blocks : forall sha pubsuf suffix cache_time db svc order evs now host c,
+  cache_inv db c -> svc_ok db svc ->
+  (forall d, In d db -> ~ In d (hostname_to_hashes sha pubsuf host)) ->
+  o_blocked (snd (check sha pubsuf suffix cache_time svc order evs now host c)) = false.
+Proof. exact no_full_hash_never_blocks. Qed.
+Print Assumptions C19_no_full_hash_never_blocks.
+
+(** A database of hashes spliced from the 2-byte prefix of one enumerated
+    name's hash and the remaining 30 bytes of another one's never blocks. *)
+Theorem C19_spliced_hash_never_blocks : forall sha pubsuf suffix cache_time db svc order evs now host c,
+  cache_inv db c -> svc_ok db svc ->
+  (forall x y, In x (hostname_to_hashes sha pubsuf host) -> In y (hostname_to_hashes sha pubsuf host) ->
+               rest_of x = rest_of y -> x = y) ->
+  (forall d, In d db -> exists a b, In a (hostname_to_hashes sha pubsuf host) /\
+                                    In b (hostname_to_hashes sha pubsuf host) /\
+                                    spliced d a b /\ prefix_of a <> prefix_of b) ->
+  o_blocked (snd (check sha pubsuf suffix cache_time svc order evs now host c)) = false.
+Proof. exact spliced_hash_never_blocks. Qed.
+Print Assumptions C19_spliced_hash_never_blocks.
+
+(** Non-vacuity: two spliced hashes for a chain of two names; served, cached,
+    clean on the fresh lookup, from the cache, and for the parent alone. *)
+Example C19_spliced_premises_satisfiable :
+  let chain := hostname_to_hashes Examples.sha Examples.pubsuf Examples.host1 in
+  chain = [Examples.sha SplicedExample.c_evil; Examples.sha Examples.evil] /\
+  Forall hash_wf SplicedExample.db_sp /\
+  (forall x y, In x chain -> In y chain -> rest_of x = rest_of y -> x = y) /\
+  (forall d, In d SplicedExample.db_sp ->
+     exists a b, In a chain /\ In b chain /\ spliced d a b /\ prefix_of a <> prefix_of b) /\
+  Forall (op_ok SplicedExample.db_sp) SplicedExample.ops_sp /\
+  map (fun r => match snd r with
+                | Some o => Some (o_blocked o, match o_question o with Some _ => true | None => false end)
+                | None => None end)
+      (run Examples.sha Examples.pubsuf Examples.sfx Examples.ct SplicedExample.ops_sp (0%Z, []))
+  = [Some (false, true); Some (false, false); Some (false, false)] /\
+  map (fun e => length (c_hashes (snd e)))
+      (snd (fst (step Examples.sha Examples.pubsuf Examples.sfx Examples.ct
+                   (OCheck Examples.host1 (db_service SplicedExample.db_sp) SplicedExample.order_sp []) (0%Z, []))))
+  = [1%nat; 1%nat].
+Proof. exact spliced_example. Qed.
+
+(** Comparing only the 30 bytes after the prefix (red-team change C19-F) is
+    refuted by that database: it matches although no database hash is a hash
+    of the chain. *)
+Theorem C19_rest_only_match_refuted :
+  let chain := hostname_to_hashes Examples.sha Examples.pubsuf Examples.host1 in
+  (forall d, In d SplicedExample.db_sp -> ~ In d chain) /\
+  find_match chain SplicedExample.db_sp = false /\
+  SplicedExample.find_match_rest chain SplicedExample.db_sp = true.
+Proof. exact rest_only_match_refuted. Qed.
+Print Assumptions C19_rest_only_match_refuted.
+
+(** ** Cache items in bytes (round 3) *)
+
+(** [fromCacheItem]: the value stored for an entry of [n] hashes is
+    [8 + 32 * n] bytes, and [toCacheItem] reads back what was stored. *)
+Theorem C19_item_encoding : forall it,
+  hashes_sized (c_hashes it) ->
+  Z.of_nat (length (encode_item it)) = item_bytes it /\
+  ((0 <= c_expiry it < 2 ^ 63)%Z -> decode_item (encode_item it) = it).
+Proof. exact item_encoding. Qed.
+Print Assumptions C19_item_encoding.
+
+(** One [Set] on a cache of [max] bytes under the golibs condition (an element
+    larger than [max] is refused, otherwise enough elements are deleted for it
+    to fit): the cache stays within [max] bytes, whichever elements go. *)
+Theorem C19_set_within_capacity : forall max e p it c,
+  (0 < max)%Z -> (cache_bytes c <= max)%Z -> set_fits max e p it c = true ->
+  (cache_bytes (cset_o e p it c) <= max)%Z.
+Proof. exact set_within_capacity. Qed.
+Print Assumptions C19_set_within_capacity.
+
+Example C19_bytes_premises_satisfiable :
+  let h1 := Examples.sha Examples.evil in
+  let h2 := Examples.sha Examples.twin ++ [] in
+  let p1 := prefix_of h1 in
+  let p2 : prefix := [7%N; 7%N] in
+  let it1 := {| c_expiry := 3650; c_hashes := [h1] |} in
+  let it2 := {| c_expiry := 3650; c_hashes := [h2] |} in
+  let c := cset p1 it1 [] in
+  entry_bytes p1 it1 = 42%Z /\ cache_bytes c = 42%Z /\
+  Z.of_nat (length (encode_item it1)) = 40%Z /\ decode_item (encode_item it1) = it1 /\
+  set_fits 60 ([], true) p2 it2 c = false /\
+  set_fits 60 ([p1], true) p2 it2 c = true /\
+  cache_bytes (cset_o ([p1], true) p2 it2 c) = 42%Z /\
+  set_fits 41 ([], false) p2 it2 [] = true /\ set_fits 41 ([], true) p2 it2 [] = false.
+Proof. exact set_example. Qed.
